@@ -80,13 +80,15 @@ namespace sim
 		// read http request
 		m_client_connection.async_read_some(asio::buffer(
 			&m_client_in_buffer[0], sizeof(m_client_in_buffer))
-			, std::bind(&http_proxy::on_read_request, this, _1, _2));
+			, std::bind(&http_proxy::on_read_request, this, m_session, _1, _2));
 	}
 
-	void http_proxy::on_read_request(error_code const& ec, size_t bytes_transferred) try
+	void http_proxy::on_read_request(int const session, error_code const& ec, size_t bytes_transferred) try
 	{
-		// the connection this operation belonged to has been torn down already
-		if (ec == asio::error::operation_aborted) return;
+		// the connection this operation belonged to has been torn down already:
+		// either the operation was aborted, or its completion was posted before
+		// the teardown and is delivered after it
+		if (ec == asio::error::operation_aborted || session != m_session) return;
 
 		if (ec)
 		{
@@ -120,7 +122,7 @@ namespace sim
 		m_client_connection.async_read_some(asio::buffer(
 			&m_client_in_buffer[m_num_client_in_bytes]
 			, sizeof(m_client_in_buffer) - m_num_client_in_bytes)
-			, std::bind(&http_proxy::on_read_request, this, _1, _2));
+			, std::bind(&http_proxy::on_read_request, this, m_session, _1, _2));
 	}
 	catch (std::runtime_error& e)
 	{
@@ -208,7 +210,7 @@ namespace sim
 				char port_str[10];
 				std::snprintf(port_str, sizeof(port_str), "%d", port);
 				m_resolver.async_resolve(host, port_str
-					, std::bind(&http_proxy::on_domain_lookup, this, _1, _2));
+					, std::bind(&http_proxy::on_domain_lookup, this, m_session, _1, _2));
 				return;
 			}
 			open_forward_connection(target);
@@ -221,9 +223,12 @@ namespace sim
 		write_server_send_buffer();
 	}
 
-	void http_proxy::on_domain_lookup(boost::system::error_code const& ec
+	void http_proxy::on_domain_lookup(int const session, boost::system::error_code const& ec
 		, const asio::ip::tcp::resolver::results_type ips)
 	{
+		// a lookup that outlived the client that asked for it
+		if (ec == asio::error::operation_aborted || session != m_session) return;
+
 		if (ec || ips.empty())
 		{
 			if (ec)
@@ -249,7 +254,7 @@ namespace sim
 		std::printf("http_proxy: async_connect: %s:%d\n"
 			, target.address().to_string().c_str(), target.port());
 		m_server_connection.async_connect(target
-			, std::bind(&http_proxy::on_connected, this, _1));
+			, std::bind(&http_proxy::on_connected, this, m_session, _1));
 	}
 
 	void http_proxy::error(int code, char const* message)
@@ -258,13 +263,19 @@ namespace sim
 		memcpy(m_in_buffer, send_buffer.data(), send_buffer.size());
 		asio::async_write(m_client_connection, asio::buffer(
 			&m_in_buffer[0], send_buffer.size())
-			, std::bind(&http_proxy::close_connection, this));
+			, [this, session = m_session](error_code const& e, std::size_t)
+			{
+				if (e == asio::error::operation_aborted || session != m_session) return;
+				close_connection();
+			});
 	}
 
-	void http_proxy::on_connected(boost::system::error_code const& ec)
+	void http_proxy::on_connected(int const session, boost::system::error_code const& ec)
 	{
-		// the connection this operation belonged to has been torn down already
-		if (ec == asio::error::operation_aborted) return;
+		// the connection this operation belonged to has been torn down already:
+		// either the operation was aborted, or its completion was posted before
+		// the teardown and is delivered after it
+		if (ec == asio::error::operation_aborted || session != m_session) return;
 
 		m_connecting = false;
 
@@ -282,7 +293,7 @@ namespace sim
 
 		m_server_connection.async_read_some(
 			asio::buffer(m_in_buffer, sizeof(m_in_buffer))
-			, std::bind(&http_proxy::on_server_receive, this, _1, _2));
+			, std::bind(&http_proxy::on_server_receive, this, m_session, _1, _2));
 	}
 
 	void http_proxy::write_server_send_buffer()
@@ -291,13 +302,15 @@ namespace sim
 		m_writing_to_server = true;
 		m_server_connection.async_write_some(asio::buffer(
 			&m_server_out_buffer[0], m_num_server_out_bytes)
-			, std::bind(&http_proxy::on_server_write, this, _1, _2));
+			, std::bind(&http_proxy::on_server_write, this, m_session, _1, _2));
 	}
 
-	void http_proxy::on_server_write(error_code const& ec, size_t bytes_transferred)
+	void http_proxy::on_server_write(int const session, error_code const& ec, size_t bytes_transferred)
 	{
-		// the connection this operation belonged to has been torn down already
-		if (ec == asio::error::operation_aborted) return;
+		// the connection this operation belonged to has been torn down already:
+		// either the operation was aborted, or its completion was posted before
+		// the teardown and is delivered after it
+		if (ec == asio::error::operation_aborted || session != m_session) return;
 
 		m_writing_to_server = false;
 		if (ec)
@@ -317,11 +330,13 @@ namespace sim
 	}
 
 	// we received some data from the server, forward it to the server
-	void http_proxy::on_server_receive(boost::system::error_code const& ec
+	void http_proxy::on_server_receive(int const session, boost::system::error_code const& ec
 		, std::size_t bytes_transferred)
 	{
-		// the connection this operation belonged to has been torn down already
-		if (ec == asio::error::operation_aborted) return;
+		// the connection this operation belonged to has been torn down already:
+		// either the operation was aborted, or its completion was posted before
+		// the teardown and is delivered after it
+		if (ec == asio::error::operation_aborted || session != m_session) return;
 
 		if (ec)
 		{
@@ -332,14 +347,16 @@ namespace sim
 		}
 
 		asio::async_write(m_client_connection, asio::buffer(&m_in_buffer[0], bytes_transferred)
-			, std::bind(&http_proxy::on_server_forward, this, _1, _2));
+			, std::bind(&http_proxy::on_server_forward, this, m_session, _1, _2));
 	}
 
-	void http_proxy::on_server_forward(error_code const& ec
+	void http_proxy::on_server_forward(int const session, error_code const& ec
 		, size_t)
 	{
-		// the connection this operation belonged to has been torn down already
-		if (ec == asio::error::operation_aborted) return;
+		// the connection this operation belonged to has been torn down already:
+		// either the operation was aborted, or its completion was posted before
+		// the teardown and is delivered after it
+		if (ec == asio::error::operation_aborted || session != m_session) return;
 
 		if (ec)
 		{
@@ -351,7 +368,7 @@ namespace sim
 
 		m_server_connection.async_read_some(
 			sim::asio::buffer(m_in_buffer, sizeof(m_in_buffer))
-			, std::bind(&http_proxy::on_server_receive, this, _1, _2));
+			, std::bind(&http_proxy::on_server_receive, this, m_session, _1, _2));
 	}
 
 	void http_proxy::stop()
@@ -362,10 +379,15 @@ namespace sim
 
 	void http_proxy::close_connection()
 	{
+		// completions of this session that are still to be delivered are stale
+		++m_session;
+		m_resolver.cancel();
+
 		m_num_client_in_bytes = 0;
 		m_num_server_out_bytes = 0;
 		m_num_in_bytes = 0;
 		m_connecting = false;
+		m_writing_to_server = false;
 
 		error_code err;
 		m_client_connection.close(err);
